@@ -43,7 +43,116 @@ class _FlipIfs(ast.NodeTransformer):
         return node
 
 
+def _terminates(stmts) -> bool:
+    if not stmts:
+        return False
+    last = stmts[-1]
+    if isinstance(last, (ast.Return, ast.Raise, ast.Continue, ast.Break)):
+        return True
+    if isinstance(last, ast.If) and last.orelse:
+        return _terminates(last.body) and _terminates(last.orelse)
+    return False
+
+
+class _FlattenElse(ast.NodeTransformer):
+    """`if c: A (ends in return/raise/continue/break) else: B`  ->  `if c: A` followed by B"""
+
+    def _block(self, body):
+        out = []
+        for s in body:
+            s = self.visit(s)
+            out.append(s)
+            while isinstance(out[-1], ast.If) and out[-1].orelse and _terminates(out[-1].body):
+                last = out[-1]
+                tail = last.orelse
+                last.orelse = []
+                out.extend(tail)
+        return out
+
+    def generic_visit(self, node):
+        for f in ("body", "orelse", "finalbody"):
+            v = getattr(node, f, None)
+            if isinstance(v, list) and v and isinstance(v[0], ast.stmt):
+                setattr(node, f, self._block(v))
+        if isinstance(node, ast.Try):
+            for h in node.handlers:
+                h.body = self._block(h.body)
+        if hasattr(ast, "Match") and isinstance(node, ast.Match):
+            for c in node.cases:
+                c.body = self._block(c.body)
+        return node
+
+
+class _Elseify(ast.NodeTransformer):
+    """`if c: A (ends in return/raise/continue/break)` followed by T  ->  `if c: A else: T`: both sides of an early exit become branches of one test, so
+    that it does not matter which side the author put under the test (`if not c: T...; A` becomes the same tree after the polarity flip)."""
+
+    def _block(self, body):
+        body = [self.visit(s) for s in body]
+        for i, s in enumerate(body[:-1]):
+            if isinstance(s, ast.If) and not s.orelse and _terminates(s.body) and not any(isinstance(x, (ast.FunctionDef, ast.AsyncFunctionDef, ast.ClassDef, ast.Global, ast.Nonlocal))
+                                                                                         for x in body[i + 1:]):
+                s.orelse = self._block_done(body[i + 1:])
+                return body[:i + 1]
+        return body
+
+    def _block_done(self, body):
+        # the tail was already visited statement by statement; only look for further early exits inside it
+        for i, s in enumerate(body[:-1]):
+            if isinstance(s, ast.If) and not s.orelse and _terminates(s.body) and not any(isinstance(x, (ast.FunctionDef, ast.AsyncFunctionDef, ast.ClassDef, ast.Global, ast.Nonlocal))
+                                                                                         for x in body[i + 1:]):
+                s.orelse = self._block_done(body[i + 1:])
+                return body[:i + 1]
+        return body
+
+    def generic_visit(self, node):
+        for f in ("body", "orelse", "finalbody"):
+            v = getattr(node, f, None)
+            if isinstance(v, list) and v and isinstance(v[0], ast.stmt):
+                setattr(node, f, self._block(v))
+        if isinstance(node, ast.Try):
+            for h in node.handlers:
+                h.body = self._block(h.body)
+        return node
+
+
+def _size(stmts) -> int:
+    return sum(1 for s in stmts for _ in ast.walk(s))
+
+
+class _GuardFirst(ast.NodeTransformer):
+    """`if c: A; T` with A and T both ending in return/raise/... is the same as `if not c: T; A`.  NOT part of the normal form (which side is smaller
+    changes with ordinary edits, so it would not be stable); kept for the guard-swap refactoring variant of tools/refactor_variants.py, which checks
+    that the rules do not depend on which side an author put under the test."""
+
+    always = False
+
+    def _block(self, body):
+        body = [self.visit(s) for s in body]
+        for i, s in enumerate(body):
+            if isinstance(s, ast.If) and not s.orelse and _terminates(s.body):
+                tail = body[i + 1:]
+                if tail and _terminates(tail) and not any(isinstance(x, (ast.FunctionDef, ast.AsyncFunctionDef, ast.ClassDef)) for x in tail) and (self.always or _size(s.body) > _size(tail)):
+                    t = s.test
+                    s.test = t.operand if isinstance(t, ast.UnaryOp) and isinstance(t.op, ast.Not) else ast.copy_location(ast.UnaryOp(op=ast.Not(), operand=t), t)
+                    new_tail = s.body
+                    s.body = tail
+                    return body[:i + 1] + self._block(new_tail)
+        return body
+
+    def generic_visit(self, node):
+        for f in ("body", "orelse", "finalbody"):
+            v = getattr(node, f, None)
+            if isinstance(v, list) and v and isinstance(v[0], ast.stmt):
+                setattr(node, f, self._block(v))
+        if isinstance(node, ast.Try):
+            for h in node.handlers:
+                h.body = self._block(h.body)
+        return node
+
+
 def flip_ifs(tree: ast.AST) -> None:
+    _Elseify().visit(tree)
     _FlipIfs().visit(tree)
 
 
@@ -305,7 +414,7 @@ def ref_entry(fn) -> dict:
     """what the reference table stores for one function"""
     names = local_names(fn)
     sites = [(n, k, _canon_with(v, {}, set())) for n, k, v in binding_sites(fn) if n in names]
-    return {"locals": names, "sites": sites, "digest": digest(fn)}
+    return {"locals": names, "sites": sites, "digest": digest(fn), "comps": [names_ for _, names_ in comp_sites(fn)]}
 
 
 def align(fn, ref: dict) -> Dict[str, str]:
@@ -478,13 +587,17 @@ def _count_names(scope, shadowed: set, stores, loads, top=False):
         todo.extend(ast.iter_child_nodes(n))
 
 
-def _own_scope_walk(node):
+def _own_scope_walk(node, yield_comps=False):
     todo = [node]
     while todo:
         n = todo.pop()
         if isinstance(n, (ast.Lambda, ast.FunctionDef, ast.AsyncFunctionDef, ast.ClassDef)):
+            if yield_comps and isinstance(n, ast.Lambda):
+                yield n
             continue
         if isinstance(n, _COMPS):
+            if yield_comps:
+                yield n
             todo.append(n.generators[0].iter)
             continue
         yield n
@@ -525,6 +638,130 @@ def _replace(use, value, stmt, hdr):
         setattr(stmt, hdr, R().visit(getattr(stmt, hdr)))
     else:
         R().visit(stmt)
+
+
+# ----------------------------------------------------------------------------------------------- 4. bound variables of comprehensions / lambdas
+def comp_sites(fn):
+    """(node, [bound names]) for the comprehensions and lambdas of the function's own code (nested defs excluded), in source order"""
+    out = []
+    todo = list(reversed(fn.body))
+    while todo:
+        n = todo.pop()
+        if isinstance(n, (ast.FunctionDef, ast.AsyncFunctionDef, ast.ClassDef)):
+            continue
+        if isinstance(n, _COMPS):
+            names = []
+            for g in n.generators:
+                for x in ast.walk(g.target):
+                    if isinstance(x, ast.Name) and x.id not in names:
+                        names.append(x.id)
+            out.append((n, names))
+        elif isinstance(n, ast.Lambda):
+            a = n.args
+            if not (a.kwonlyargs or a.vararg or a.kwarg):
+                out.append((n, [x.arg for x in a.posonlyargs + a.args]))
+            else:
+                out.append((n, []))
+        todo.extend(reversed(list(ast.iter_child_nodes(n))))
+    return out
+
+
+def align_comps(fn, ref) -> int:
+    """rename the bound variables of the k-th comprehension / lambda to the reference's names when only the names differ"""
+    rc = ref.get("comps")
+    if rc is None:
+        return 0
+    ac = comp_sites(fn)
+    if len(ac) != len(rc) or any(len(a[1]) != len(r) for a, r in zip(ac, rc)):
+        return 0
+    done = 0
+    for (node, names), rnames in zip(ac, rc):
+        m = {a: r for a, r in zip(names, rnames) if a != r}
+        if not m:
+            continue
+        present = {x.id for x in ast.walk(node) if isinstance(x, ast.Name)} | {x.arg for x in ast.walk(node) if isinstance(x, ast.arg)}
+        if any(r in present and r not in m for r in m.values()) or len(set(m.values())) != len(m):
+            continue
+        for x in ast.walk(node):
+            if isinstance(x, ast.Name) and x.id in m:
+                x.id = m[x.id]
+            elif isinstance(x, ast.arg) and x.arg in m:
+                x.arg = m[x.arg]
+        done += 1
+    return done
+
+
+# ----------------------------------------------------------------------------------------------- 5. temporaries of the reference that were inlined away
+def reintroduce_temps(fn, ref) -> List[str]:
+    """A reference local with a single plain definition `r = D` that no longer exists, while an expression equal to D occurs exactly once in the
+    function (evaluated before any other call of its statement): give the expression its name back (`r = D` directly before the statement)."""
+    from . import sym
+    done = []
+    if uses_dynamic_scope(fn):
+        return done
+    ref_sites = [tuple(x) for x in ref["sites"]]
+    for _ in range(30):
+        have = set(local_names(fn)) | params_of(fn) | unsafe_names(fn)
+        free = free_names(fn)
+        progress = False
+        for r in ref["locals"]:
+            if r in have or r in free:
+                continue
+            defs = [(k, c) for n, k, c in ref_sites if n == r]
+            if len(defs) != 1 or defs[0][0] != "assign":
+                continue
+            want = defs[0][1]
+            if want in ("None", "0", "[]", "{}", "True", "False") or len(want) < 6:
+                continue
+            hits = []
+            for block in _blocks(fn):
+                for st in block:
+                    hdr = None
+                    if isinstance(st, (ast.For, ast.If)):
+                        hdr = "iter" if isinstance(st, ast.For) else "test"
+                        root = getattr(st, hdr)
+                    elif isinstance(st, (ast.Return, ast.Assign, ast.AugAssign, ast.AnnAssign, ast.Expr, ast.Raise, ast.Assert)):
+                        root = st
+                    else:
+                        continue
+                    for e in _own_scope_walk(root, yield_comps=True):
+                        if not isinstance(e, ast.expr) or isinstance(e, (ast.Name, ast.Constant, ast.Starred, ast.Slice)) or not isinstance(getattr(e, "ctx", ast.Load()), ast.Load):
+                            continue
+                        if isinstance(st, ast.Assign) and e is st.value and len(st.targets) == 1 and isinstance(st.targets[0], ast.Name):
+                            continue        # already has a name
+                        try:
+                            c = sym.canon(e)
+                        except Exception:
+                            continue
+                        if c == want:
+                            hits.append((block, st, hdr, root, e))
+            same = [x for x in ref["locals"] if x not in have and x not in free and [(k, c) for n, k, c in ref_sites if n == x] == defs]
+            if len(hits) != 1 and not (len(hits) == len(same) and same[0] == r):
+                continue
+            hits.sort(key=lambda h: (getattr(h[4], "lineno", 0), getattr(h[4], "col_offset", 0)))
+            block, st, hdr, root, e = hits[0]
+            if not hasattr(e, "lineno") or _call_before(root, e):
+                continue
+            new_assign = ast.copy_location(ast.Assign(targets=[ast.Name(id=r, ctx=ast.Store())], value=e), st)
+            ast.fix_missing_locations(new_assign)
+            name = ast.copy_location(ast.Name(id=r, ctx=ast.Load()), e)
+
+            class R(ast.NodeTransformer):
+                def visit(self, n):
+                    if n is e:
+                        return name
+                    return super().visit(n)
+            if hdr:
+                setattr(st, hdr, R().visit(getattr(st, hdr)))
+            else:
+                R().visit(st)
+            block.insert(block.index(st), new_assign)
+            done.append(r)
+            progress = True
+            break
+        if not progress:
+            break
+    return done
 
 
 # ----------------------------------------------------------------------------------------------- driver
@@ -585,6 +822,11 @@ def normalize_module(tree: ast.Module, modname: str, table: Optional[dict] = Non
         inl = inline_fresh_temps(fn, ref["locals"])
         if inl:
             stats["inlined"][qn] = inl
+        if align_comps(fn, ref):
+            stats.setdefault("comps", {})[qn] = True
+        back = reintroduce_temps(fn, ref)
+        if back:
+            stats.setdefault("reintroduced", {})[qn] = back
     return stats
 
 
